@@ -73,7 +73,7 @@ def lit(b):
     return '"' + s.replace("\\", "\\\\").replace('"', '\\"').replace("\n", "\\n").replace("\t", "\\t") + '"'
 
 
-PLACEMENTS = ("straight", "loop", "function", "computed")
+PLACEMENTS = ("straight", "loop", "function", "computed", "loop+computed", "function+computed")
 
 
 def lit2(b):
@@ -175,9 +175,9 @@ class Instance:
         return self.src
 
     def placed(self, i, line):
-        if self.placement == "loop":
+        if self.placement.startswith("loop"):
             return "make k%d get 0\njasi (k%d small pass 1) start\n    %s\n    k%d get k%d add 1\nend" % (i, i, line, i, i)
-        if self.placement == "function":
+        if self.placement.startswith("function"):
             return "do step%d() start\n    %s\nend\nstep%d()" % (i, line, i)
         return line
 
@@ -185,7 +185,7 @@ class Instance:
         rec = self.rec
         prog = self.text(rec["prog"], "prog")
         self.by_call[0] = [prog]
-        lit = lit2 if self.placement == "computed" else globals()["lit"]
+        lit = lit2 if self.placement.endswith("computed") else globals()["lit"]
         raw = ["make c get command(%s)" % lit(prog)]
         lines = _Placed(self, raw)
         for i, call in enumerate(rec["calls"], start=1):
@@ -210,7 +210,7 @@ class Instance:
                 lines.append("c.timeout_ms(%d)" % (self.timeouts[call[1]] * UNIT_MS))
             else:
                 lines.append("c.%s()" % m)
-        if self.placement in ("loop", "function"):
+        if self.placement.startswith(("loop", "function")):
             # churn: re-use whatever the frame resets above gave back
             raw.append('make junk get 0\njasi (junk small pass 3) start\n    make filler get "%s" add "R"\n    junk get junk add 1\nend' % ("Q" * 48))
         raw.append("make r get c.run()")
@@ -396,7 +396,7 @@ def run(tier):
         models[name]["replayed"] = len(chosen)
         for rec in chosen:
             S = rng.choice((1, 1, 3, 16))
-            places = [PLACEMENTS[nid % 4]] if quick else ["straight", PLACEMENTS[1 + nid % 3]]
+            places = [PLACEMENTS[nid % len(PLACEMENTS)]] if quick else ["straight", PLACEMENTS[1 + nid % (len(PLACEMENTS) - 1)]]
             for placement in places:
                 inst = Instance(rec, caps, bool(allow), tok, tm, S, random.Random(rng.random()), base, placement=placement)
                 src = inst.build()
@@ -453,7 +453,7 @@ def run(tier):
             continue
         for suffix, desc in bad:
             rule = "+".join(sorted(o.get("why", []))) if o["k"] == "refuse" else o["k"]
-            key = "%s:%s" % (suffix, rule) + ("" if inst.placement in ("straight", "computed") else ":" + inst.placement)
+            key = "%s:%s" % (suffix, rule) + ("" if inst.placement in ("straight", "computed") else ":" + inst.placement.split("+")[0])
             v.finding(key, "%s [limits %s, scale %d]\ncalls %s on program token %s; model outcome %s\nscript:\n%s" % (
                 desc, inst.plan, inst.S, inst.rec["calls"][:8], inst.rec["prog"], {k: o[k] for k in o if k != "argv"} if len(str(o)) > 600 else o, inst.build()[:1500]),
                 {"limits": inst.plan, "scale": inst.S, "policy": inst.policy(), "calls": inst.rec["calls"][:300], "program_token": inst.rec["prog"],
